@@ -66,6 +66,10 @@ func (prog *Program) buildSMT(o *Obligation, axioms []*Term, wantModel bool) str
 	for iter := 0; iter < 3; iter++ {
 		bg = append(strAxioms(c.decls), shiftAxioms(c.decls)...)
 		bg = append(bg, usgAxioms(c.decls)...)
+		bg = append(bg, ghostPlainAxioms(c.decls)...)
+		for _, gb := range ghostBodies(c.decls) {
+			c.term(gb)
+		}
 		n := len(c.decls)
 		for _, t := range bg {
 			c.term(t)
